@@ -1,8 +1,9 @@
 """C14 -- stepping and scan combinators equal their sequential definition for every split."""
 from contracts import time_integration_combinators as K
 
-LEVEL = "other"
-EXPLANATION = ('Deductive, unbounded: pyvc generates VCs from the real source of the combinators with symbolic step counts, '
+LEVEL = "proof"
+EXPLANATION = ('Deductive, unbounded (nested_checkpoint_scan included: induction on the nesting depth with the recursive call replaced by its contract; the scanned inputs enter through '
+               'their flat row index, row-major reshape and concatenation of stacked blocks are assumed library contracts):  pyvc generates VCs from the real source of the combinators with symbolic step counts, '
                'filter counts, weight vectors and nesting; scan calls are treated as loops with inductive invariants '
                '(assumed contract of lax.scan = sequential fold); ghost iterate functions and induction lemmas are '
                'separate obligations; z3 discharges all.')
@@ -14,15 +15,17 @@ ASSUMPTIONS = [
 
 
 def clauses(tier, seed):
-  return K.clauses() + K.dfi_clauses() + K.twin_clauses()
+  from contracts import nested_scan_contracts as NS
+  return K.clauses() + K.dfi_clauses() + NS.clauses() + K.twin_clauses()
 
 MANIFEST = {
     'engine': 'pyvc',
-    'technique': 'contract-based deductive: VCs from the real source with symbolic step counts, scan-as-loop invariants, ghost iterate functions and induction lemmas (z3); bounded twin for nested_checkpoint_scan',
-    'text': ('other = proof of everything except the nested checkpointed scan: repeated, step_with_filters, trajectory_from_step '
-             '(all outer/inner/start_with_input), accumulate_repeated and digital-filter initialisation (defining sum, steady state) '
-             'are proved for all step counts by VCs generated from the real source; nested_checkpoint_scan is so far covered by a '
-             'bounded twin only (all ordered factorisations of the listed lengths: values, stacked outputs, gradients) and is not counted as proved.'),
+    'technique': ('contract-based deductive: VCs from the real source with symbolic step counts, scan-as-loop invariants, ghost iterate functions and induction lemmas (z3); '
+                  'nested_checkpoint_scan by induction on the nesting depth (base case, step case with the recursive call replaced by its contract, row-major block lemma); bounded twins as cross-checks'),
+    'text': ('proof: repeated, step_with_filters, trajectory_from_step (all outer/inner/start_with_input), accumulate_repeated, digital-filter initialisation (defining sum, steady state) '
+             'and nested_checkpoint_scan / _inner_nested_scan (every depth, all lengths, length validation, reshape, delegation) are proved for all step counts by VCs generated from the real '
+             'source. The bounded twins (all ordered factorisations of the listed lengths: values, stacked outputs, gradients) are run-time cross-checks of the same contracts and of the '
+             'assumed library contracts; they are reported separately and not counted as proved.'),
     'note': ('trusted: lax.scan = sequential fold (A8), decorators/checkpoint transparent (A3), states as an uninterpreted sort with '
              'leaf-wise tree_map, vector-space axioms in the steady-state lemma; z3; the pyvc engine (canary + mutation trials).'),
 }
